@@ -84,7 +84,7 @@ def make_loop_case(index, rng, tier):
         t += rng.uniform(0.05, 1.0)
     return {"family": "loop", "kind": rng.choice(["sync", "gthread", "gevent", "eventlet"]), "keepalive": rng.choice([0, 1, 2]),
             "threads": rng.randrange(1, 3), "hostile": hostile, "cfg": rng.choice([{}, {}, {"limit_request_line": 64}, {"limit_request_fields": 3}]),
-            "buggify": {"pyticks": rng.randrange(3) == 0, "short_recv": rng.randrange(3) == 0}}
+            "buggify": {"pyticks": rng.randrange(3) == 0, "short_recv": rng.randrange(3) == 0, "accept_econnaborted": rng.randrange(5) == 0}}
 
 
 class _LoopMod:
@@ -149,13 +149,15 @@ def run_loop(case, choices):
                         "boot_error=%r; %s" % (p.status, (w.boot_error or "")[-300:], ctx()))
         for c in finals:
             ok = c.responses and c.responses[0]["status"] == 200 and c.responses[0]["complete"]
+            if c.stream is not None and c.stream.peer in sim.stolen:
+                continue          # its connection was aborted in the accept queue (injected ECONNABORTED): nothing to serve
             if not ok and p.state == "running":
                 res.violate("C05:loop:%s:follow-up-not-served" % kind, "after the hostile connections the valid client %s was not served: %r; "
                             "log=%r; %s" % (c.name, [(r["status"], r["complete"]) for r in c.responses], c.log[-4:], ctx()))
         allowed = len(finals)
         for c, h, obs in zip(hostile, case["hostile"], parsed):
             allowed += len(obs)
-            if h["end"] != "half-close" or c.stream is None:
+            if h["end"] != "half-close" or c.stream is None or c.stream.peer in sim.stolen:
                 continue
             st = c.stream
             wire = bytes(st.rbuf)
